@@ -231,7 +231,22 @@ def scn_results(T, case):
     T.prove("C11.results.reported_perturbed_variables_are_user_domain", eq(ge.variables, x) & eq(ge.perturbed_variables, pv))
 
 
+def cases_chain_requests(tier):
+    for kind in ("functions", "both", "functions-then-gradients"):
+        yield "%s/R2P2N2" % kind, {"kind": kind, "R": 2, "P": 2, "N": 2, "B": 1, "K": 1, "tr": True, "prefix": "C11.chain"}
+    yield "functions/batch2", {"kind": "functions", "R": 2, "P": 1, "N": 1, "B": 2, "K": 0, "tr": True, "prefix": "C11.chain"}
+
+
+def scn_chain_requests(T, case):
+    """The evaluator is always handed user-domain vectors (unperturbed and perturbed, in all three evaluation kinds): the request
+    scenario of C06 with a variable transform, stated here as a clause of C11."""
+    from contracts.C06 import scn_requests
+
+    scn_requests(T, case)
+
+
 SCENARIOS = [
+    Scenario("evaluator_requests_in_user_coordinates", scn_chain_requests, cases_chain_requests, {"quick": 3, "thorough": 20}),
     Scenario("scaler_round_trip_and_bounds", scn_scaler, cases_scaler, {"quick": 10, "thorough": 100}),
     Scenario("request_invariance", scn_requests, cases_requests, {"quick": 20, "thorough": 200}),
     Scenario("linear_constraints", scn_linear, cases_linear, {"quick": 10, "thorough": 100}),
